@@ -69,6 +69,28 @@ class Parsers:
         cfg = ChineseMergedParserConfiguration()
         self.dp, self.pp, self.durp, self.dtp = cfg.date_parser, cfg.date_period_parser, cfg.duration_parser, cfg.date_time_parser
         self.tp = cfg.time_parser
+        self.variants = probe(self)
+
+
+PROBE_R = dt.datetime(2020, 1, 31, 14, 30, 0)
+PROBE_R2 = dt.datetime(2020, 12, 15, 0, 0, 0)
+PREFIX_ANSWER = {'ago': '2019-01-31\t2019-1-31@52200\t2019-1-31@52200',
+                 'simple': '(2021-11-01,2021-11-05,P4D)\t2021-11-1@0\t2021-11-5@0\t2020-11-1@0\t2020-11-5@0',
+                 'quarter': '(2019-10-01,0001-01-01,P3M)\t2019-10-1@0\t1-1-1@0\t2019-10-1@0\t1-1-1@0'}
+
+
+def probe(P):
+    """Which variant of the three repaired functions does the tree follow?  Each is asked on the input of its regression
+    witness (RTV/Props/C08Zh.lean): the pre-fix answer selects the labelled pre-fix model (`zh.*prefix` driver ops), anything
+    else is compared with the model of the repaired code."""
+    got = {'ago': guarded(lambda: show_d(P.dp.parser_duration_with_ago_and_later('2年前', PROBE_R))),
+           'simple': guarded(lambda: show_r(P.pp._parse_simple_cases('这个月1日到5日', PROBE_R2))),
+           'quarter': guarded(lambda: show_r(P.pp._parse_quarter('2019年第四季度', PROBE_R)))}
+    return {k: ('prefix' if got[k] == PREFIX_ANSWER[k] else 'fixed') for k in got}
+
+
+def op(P, name):
+    return 'zh.' + name + ('prefix' if P.variants.get(name) == 'prefix' else '')
 
 
 def refs_for(ctx, tag, n_b, n_s, must=()):
@@ -155,15 +177,19 @@ def date_cases(ctx, P, refs):
                     t = '%d%s%s' % (n, uw, sw)
                     if not dp.duration_extractor.extract(t, R):
                         continue
-                    out.append(('zh.ago\t%s\t%s\t%d\t%d\t%d' % (rf, unit_code.get(dc.unit_map.get(uw), 'O'), n, b, a),
+                    out.append((op(P, 'ago') + '\t%s\t%s\t%d\t%d\t%d' % (rf, unit_code.get(dc.unit_map.get(uw), 'O'), n, b, a),
                                 (lambda t=t, R=R: show_d(dp.parser_duration_with_ago_and_later(t, R))),
                                 'parser_duration_with_ago_and_later(%r, %s)' % (t, R)))
         if i % 6 == 0:
             for t, n, uw, b, a in (('三天前', 3, '天', 1, 0), ('两周后', 2, '周', 0, 1), ('十天后', 10, '天', 0, 1), ('二十五天前', 25, '天', 1, 0),
                                    ('一百天前', 100, '天', 1, 0), ('半年前', -1, '年', 1, 0), ('3天', 3, '天', 0, 0), ('两年后', 2, '年', 0, 1)):
-                if not dp.duration_extractor.extract(t, R):
+                ers = dp.duration_extractor.extract(t, R)
+                m = dc._unit_regex.search(t)
+                if not ers or not m:
                     continue
-                out.append(('zh.ago\t%s\t%s\t%d\t%d\t%d' % (rf, unit_code.get(dc.unit_map.get(uw), 'O'), n, b, a),
+                # the number as the method reads it (a separate method of the parser: an input of the modelled function)
+                n = dp.parse_chinese_written_number_to_value(t[ers[-1].start:m.start()])
+                out.append((op(P, 'ago') + '\t%s\t%s\t%d\t%d\t%d' % (rf, unit_code.get(dc.unit_map.get(uw), 'O'), n, b, a),
                             (lambda t=t, R=R: show_d(dp.parser_duration_with_ago_and_later(t, R))),
                             'parser_duration_with_ago_and_later(%r, %s)' % (t, R)))
     return out
@@ -229,7 +255,7 @@ def period_cases(ctx, P, refs):
                         continue
                     mn = None if rel else pc.month_of_year[mw]
                     sw = pc.get_swift_day_or_month(rel) if rel else 0
-                    out.append(('zh.simple\t%s\t%d\t%d\t%s\t%d\t%d\t%s' % (rf, pc.day_of_month['%d日' % b], pc.day_of_month['%d日' % e], opt(mn), sw,
+                    out.append((op(P, 'simple') + '\t%s\t%d\t%d\t%s\t%d\t%d\t%s' % (rf, pc.day_of_month['%d日' % b], pc.day_of_month['%d日' % e], opt(mn), sw,
                                                                       1 if pc.is_future(mw) else 0, opt(yv)),
                                 (lambda t=t, R=R: show_r(pp._parse_simple_cases(t, R))), '_parse_simple_cases(%r, %s)' % (t, R)))
         # ---- number with unit / duration
@@ -300,13 +326,13 @@ def period_cases(ctx, P, refs):
                         (lambda t=t, Rk=Rk: show_r(pp._parse_year_and_month(t, Rk))), '_parse_year_and_month(%r, %s)' % (t, Rk)))
             for q, qw in ((1, '一'), (2, '2'), (3, '三'), (4, '4')):
                 t = '%s第%s季度' % (rel, qw)
-                out.append(('zh.quarter\t%d\t%d' % (Rk.year + pc.get_swift_day_or_month(rel), pc.cardinal_map[qw]),
+                out.append((op(P, 'quarter') + '\t%d\t%d' % (Rk.year + pc.get_swift_day_or_month(rel), pc.cardinal_map[qw]),
                             (lambda t=t, Rk=Rk: show_r(pp._parse_quarter(t, Rk))), '_parse_quarter(%r, %s)' % (t, Rk)))
     for y in (2019, 1998, 19, 95, 50, 2100):
         for q, qw in ((1, '一'), (2, '二'), (3, '3'), (4, '四')):
             t = '%d年第%s季度' % (y, qw)
             if full(pc.quarter_regex, t):
-                out.append(('zh.quarter\t%d\t%d' % (y, pc.cardinal_map[qw]), (lambda t=t: show_r(pp._parse_quarter(t, R))), '_parse_quarter(%r)' % t))
+                out.append((op(P, 'quarter') + '\t%d\t%d' % (y, pc.cardinal_map[qw]), (lambda t=t: show_r(pp._parse_quarter(t, R))), '_parse_quarter(%r)' % t))
         for sw_, code in (('夏天', 'SU'), ('春', 'SP'), ('秋季', 'FA'), ('冬', 'WI')):
             t = '%d年%s' % (y, sw_)
             if full(pp.season_with_year_regex, t):
@@ -407,7 +433,7 @@ def unit(ctx, P):
     model = common.driver([c[0] for c in cs])
     hist, shown = {}, {}
     for (line, _f, desc), a, b in zip(cs, impl, model):
-        op = line.split('\t')[0]
+        op = line.split('\t')[0].replace('prefix', '')
         hist[op] = hist.get(op, 0) + 1
         if a not in ('none', 'err:Other'):
             ctx.nontriv(('zh', desc))
@@ -428,6 +454,7 @@ def unit(ctx, P):
                            failing_input={'op': line, 'call': desc, 'implementation': a, 'model': '%s\t%d' % (b, want)})
     for op, n in sorted(hist.items()):
         ctx.count('zh-unit:' + op, n)
+    ctx.extra['zh_variants'] = dict(P.variants)
     ctx.sample({'op': cs[len(cs) // 2][0], 'call': cs[len(cs) // 2][2], 'implementation': impl[len(cs) // 2]})
     # the negative witnesses proved in RTV/Props/C08Zh.lean, replayed on the implementation
     witnesses(ctx, P)
@@ -443,19 +470,19 @@ def witnesses(ctx, P):
                    failing_input={'op': '_parse_one_word_period', 'expression': '今年', 'reference': str(R), 'implementation': show_r(r),
                                   'property_expects': '2020\t2020-1-1@0\t2021-1-1@0'}, property_fails=True)
     r = guarded(lambda: show_d(dp.parser_duration_with_ago_and_later('2年前', R)))
-    if r == '2019-01-31\t2019-1-31@52200\t2019-1-31@52200':           # zh_years_ago_ignores_number
+    if r == PREFIX_ANSWER['ago']:                                        # zh_months_years_prefix_regression
         ctx.report('property', 'zh-ago-month-year-number-ignored', "parser_duration_with_ago_and_later('2年前', %s) -> %s; two years before "
                    'the reference is 2018-01-31' % (R, r),
                    failing_input={'op': 'parser_duration_with_ago_and_later', 'expression': '2年前', 'reference': str(R), 'implementation': r,
                                   'property_expects': '2018-01-31'}, property_fails=True)
     R2 = dt.datetime(2020, 12, 15, 0, 0, 0)
     r = guarded(lambda: show_r(pp._parse_simple_cases('这个月1日到5日', R2)))
-    if r.startswith('(2021-11-01,2021-11-05,P4D)'):                     # zh_simple_cases_december_witness
+    if r.startswith('(2021-11-01,2021-11-05,P4D)'):                     # zh_simple_cases_prefix_regression
         ctx.report('property', 'zh-simple-cases-relative-month', "_parse_simple_cases('这个月1日到5日', %s) -> %s; this month is December 2020" % (R2, r),
                    failing_input={'op': '_parse_simple_cases', 'expression': '这个月1日到5日', 'reference': str(R2), 'implementation': r,
                                   'property_expects': '(2020-12-01,2020-12-05,P4D)'}, property_fails=True)
     r = guarded(lambda: show_r(pp._parse_quarter('2019年第四季度', R)))
-    if r.startswith('(2019-10-01,0001-01-01,P3M)'):                     # zh_quarter4_end_is_min_value
+    if r.startswith('(2019-10-01,0001-01-01,P3M)'):                     # zh_quarter4_prefix_regression
         ctx.report('property', 'zh-quarter-4-end', "_parse_quarter('2019年第四季度') -> %s; the fourth quarter ends on 2020-01-01" % r,
                    failing_input={'op': '_parse_quarter', 'expression': '2019年第四季度', 'implementation': r,
                                   'property_expects': '(2019-10-01,2020-01-01,P3M)'}, property_fails=True)
@@ -532,8 +559,13 @@ def ago_my_oracle(fam, par, R):
     return [{'timex': calcorr.iso(v), 'type': 'date', 'value': calcorr.iso(v)}]
 
 
-def pipeline(ctx):
+def pipeline(ctx, P=None):
     cases = pipeline_cases(ctx)
+    ago_fixed = P is not None and P.variants.get('ago') == 'fixed'
+    agomy = [i for i, c in enumerate(cases) if c[2] in ('agoM', 'agoY')] if ago_fixed else []
+    agomy_model = dict(zip(agomy, common.driver(['zh.ago\t%s\t%s\t%d\t%d\t%d' % (
+        ref_fields(cases[i][1]), 'MON' if cases[i][2] == 'agoM' else 'Y', cases[i][3][0], 1 if cases[i][3][1] < 0 else 0,
+        1 if cases[i][3][1] > 0 else 0) for i in agomy]))) if agomy else {}
     res = dtpipe.run([('zh-cn', c[0], c[1]) for c in cases])
     triple_ents, triple_idx = [], []
     nwu = [i for i, c in enumerate(cases) if c[2] == 'nwu']
@@ -568,6 +600,13 @@ def pipeline(ctx):
         elif fam in ('agoM', 'agoY'):
             want = ago_my_oracle(fam, par, R)
             fi['property_expects'] = want
+            if i in agomy_model:      # repaired variant: the pipeline prints what the model computes (datedelta semantics included)
+                f = agomy_model[i].split('\t')
+                mv = [{'timex': f[0], 'type': 'date', 'value': _pad(f[1])}] if len(f) == 3 else None
+                fi['model'] = mv
+                if vals != mv:
+                    ctx.report('correspondence', 'zh-pipeline-ago', '%r (zh-cn) at %s: implementation %r, model %r' % (
+                        text, fi['reference'], vals, mv), failing_input=fi)
             if want is None or vals == want:
                 continue          # the day does not exist in the target month: nothing demanded
             ctx.report('property', 'zh-ago-month-year-number-ignored', '%r (zh-cn) at %s: got %r, %d %s %s the reference is %r' % (
@@ -601,4 +640,4 @@ def run(ctx):
     common.setup_repo_imports()
     P = Parsers()
     unit(ctx, P)
-    pipeline(ctx)
+    pipeline(ctx, P)
